@@ -6,6 +6,7 @@ Documents travel as tagged JSON so that every YAML-representable value survives:
   ["n"] null  ["b",bool]  ["i","<int>"]  ["f","<float>|nan|inf|-inf"]  ["s",str]  ["d","YYYY-MM-DD"]
   ["l",[v...]]  ["m",[[k,v]...]]   (keys are scalars; insertion order kept)
 """
+from impl.excname import exc_name
 import copy
 import datetime
 import ipaddress
@@ -193,10 +194,10 @@ def attempt(kind, doc, collect):
     try:
         r = LOADERS[kind](copy.deepcopy(doc), collect)
     except SigmaError as e:
-        return ["sigma", type(e).__name__], e
+        return ["sigma", exc_name(e)], e
     except Exception as e:  # noqa
-        return ["crash", type(e).__name__, str(e)[:120]], e
-    return ["ok", [type(e).__name__ for e in r.errors]], r
+        return ["crash", exc_name(e), str(e)[:120]], e
+    return ["ok", [exc_name(e) for e in r.errors]], r
 
 
 def run_load(case):
@@ -221,12 +222,12 @@ def run_yaml(case):
         try:
             r = f(case["text"], collect)
         except SigmaError as e:
-            return ["sigma", type(e).__name__], e
+            return ["sigma", exc_name(e)], e
         except yaml.YAMLError as e:
-            return ["yaml", type(e).__name__], e
+            return ["yaml", exc_name(e)], e
         except Exception as e:  # noqa
-            return ["crash", type(e).__name__, str(e)[:120]], e
-        return ["ok", [type(e).__name__ for e in r.errors]], r
+            return ["crash", exc_name(e), str(e)[:120]], e
+        return ["ok", [exc_name(e) for e in r.errors]], r
     f = {"rule": SigmaRule.from_yaml, "corr": SigmaCorrelationRule.from_yaml, "filter": SigmaFilter.from_yaml,
          "coll": lambda t, c: SigmaCollection.from_yaml(t, c, None, True, False)}[case["kind"]]
     strict, so = one(f, False)
@@ -269,12 +270,12 @@ def run_collx(case):
         try:
             r = _load_collection(docs, via, collect, cf, rr, split, tmp.name if tmp else None)
         except SigmaError as e:
-            return ["sigma", type(e).__name__], e
+            return ["sigma", exc_name(e)], e
         except yaml.YAMLError as e:
-            return ["yaml", type(e).__name__], e
+            return ["yaml", exc_name(e)], e
         except Exception as e:  # noqa
-            return ["crash", type(e).__name__, str(e)[:160]], e
-        return ["ok", [type(e).__name__ for e in r.errors]], r
+            return ["crash", exc_name(e), str(e)[:160]], e
+        return ["ok", [exc_name(e) for e in r.errors]], r
     strict, so = one(False)
     collect, co = one(True)
     first_eq = None
